@@ -12,6 +12,7 @@ import (
 	"k8s.io/apimachinery/pkg/labels"
 	"k8s.io/apimachinery/pkg/types"
 	"k8s.io/client-go/tools/cache"
+	"k8s.io/client-go/util/workqueue"
 	"pgregory.net/rapid"
 
 	asv1 "github.com/pingcap/advanced-statefulset/client/apis/apps/v1"
@@ -90,9 +91,18 @@ func genC16(rt *rapid.T) C16Case {
 		case e.Kind <= 8:
 			e.Set = rapid.IntRange(0, 2).Draw(rt, "whichSet")
 		default:
-			k := rapid.IntRange(1, 5).Draw(rt, "nsteps")
-			for j := 0; j < k; j++ {
-				e.Outcomes = append(e.Outcomes, rapid.Bool().Draw(rt, "fails"))
+			if rapid.IntRange(0, 3).Draw(rt, "longFailureRun") == 0 {
+				// a long outage: many consecutive failures, then success
+				k := rapid.IntRange(12, 40).Draw(rt, "runLen")
+				for j := 0; j < k; j++ {
+					e.Outcomes = append(e.Outcomes, true)
+				}
+				e.Outcomes = append(e.Outcomes, false)
+			} else {
+				k := rapid.IntRange(1, 5).Draw(rt, "nsteps")
+				for j := 0; j < k; j++ {
+					e.Outcomes = append(e.Outcomes, rapid.Bool().Draw(rt, "fails"))
+				}
 			}
 		}
 		c.Events = append(c.Events, e)
@@ -373,6 +383,15 @@ func runC16(rep Rep, cs C16Case) {
 // succeeding one must clear the counter.
 func (w *c16World) workerSteps(rep Rep, outcomes []bool) {
 	c := w.c
+	// a queue of the same kind with a fast rate limiter: long runs of failures must not take minutes of
+	// real backoff (the controller's own limiter reaches 82 s after 15 failures)
+	orig := c.Ctrl().VerifQueue()
+	fast := workqueue.NewNamedRateLimitingQueue(workqueue.NewItemExponentialFailureRateLimiter(time.Nanosecond, time.Microsecond), "verif")
+	c.Ctrl().VerifSetQueue(fast)
+	defer func() {
+		c.Ctrl().VerifSetQueue(orig)
+		fast.ShutDown()
+	}()
 	q := c.Ctrl().VerifQueue()
 	key := NS + "/web"
 	w.drain()
@@ -422,6 +441,9 @@ func (w *c16World) workerSteps(rep Rep, outcomes []bool) {
 	w.drain()
 	q.Forget(key)
 	rep.Label("worker-steps")
+	if len(outcomes) > 16 {
+		rep.Label("worker-steps:long-failure-run")
+	}
 }
 
 func TestC16(t *testing.T)        { checkCases(t, "C16", genC16, runC16) }
